@@ -106,6 +106,16 @@ __CPROVER_assigns()
 CANARY_w_diff_filter
 ;
 
+/* C12: options that only affect presentation never change the verdict-relevant state of the diff context */
+void w_presentation_opts(unsigned verdict_bits, unsigned pres1, unsigned pres2, int n_suppr_paths, int *same, int *wired)
+__CPROVER_requires(__CPROVER_is_fresh(same, 10 * sizeof(int)) && __CPROVER_is_fresh(wired, 5 * sizeof(int)))
+__CPROVER_requires(0 <= n_suppr_paths && n_suppr_paths <= 2)
+__CPROVER_ensures(same[0] && same[1] && same[2] && same[3] && same[4] && same[5] && same[6] && same[7] && same[8] && same[9])
+__CPROVER_ensures(wired[0] && wired[1] && wired[2] && wired[3] && wired[4])
+__CPROVER_assigns(__CPROVER_object_whole(same), __CPROVER_object_whole(wired), gh_supprs_read)
+CANARY_w_presentation_opts
+;
+
 /* option wiring of abidiff: harmless categories are switched off unless --harmless, harmful ones
    only with --no-harmful; redundant changes are shown with --redundant or in leaf mode */
 void w_set_ctx_from_opts(int show_harmless, int show_harmful, int show_redundant, int leaf_only,
@@ -304,6 +314,14 @@ void h_diff_filter(void)
   unsigned in_allowed = nondet_unsigned(); int in_show_redundant = nondet_int();
   w_diff_filter(in_which, in_category, in_local, in_has_canonical, in_canonical_category, in_has_changes,
                 in_has_local_changes, in_allowed, in_show_redundant);
+}
+void h_presentation_opts(void)
+{
+  load_constants();
+  int same[10], wired[5];
+  gh_supprs_read = 0;
+  unsigned in_verdict_bits = nondet_unsigned(), in_pres1 = nondet_unsigned(), in_pres2 = nondet_unsigned(); int in_n = nondet_int();
+  w_presentation_opts(in_verdict_bits, in_pres1, in_pres2, in_n, same, wired);
 }
 void h_set_ctx_from_opts(void)
 {
